@@ -78,9 +78,18 @@ def same(it, a, b):
 
 def check_fixed(run, prog, n, signed, pre, post, where):
     """store_(u)int(v, n) between `pre` and `post` unknown bits"""
+    if not signed:
+        return _check_fixed(run, prog, n, signed, pre, post, where, 0, (1 << n) - 1, '')
+    # a signed field: once for any negative value that fits, once for any non-negative one (a reader that tests the sign bit and
+    # subtracts 2^n is then followed without a case split inside the interpretation)
+    _check_fixed(run, prog, n, signed, pre, post, where, -(1 << (n - 1)), -1, ',v<0')
+    _check_fixed(run, prog, n, signed, pre, post, where, 0, (1 << (n - 1)) - 1, ',v>=0')
+
+
+def _check_fixed(run, prog, n, signed, pre, post, where, lo, hi, half):
     it = Interp(prog)
     # the value is any integer that fits the field: its range is the scenario's premise
-    v = Sym('v', ty='int', not_none=True, key=('v',), lo=-(1 << (n - 1)) if signed else 0, hi=(1 << (n - 1)) - 1 if signed else (1 << n) - 1)
+    v = Sym('v', ty='int', not_none=True, key=('v',), lo=lo, hi=hi)
     b = builder(it)
     kind = 'int' if signed else 'uint'
     cons = f'Builder.store_{kind}/Slice.load_{kind}'
@@ -103,7 +112,7 @@ def check_fixed(run, prog, n, signed, pre, post, where):
         l = call(it, s, f'load_{kind}', K(n))
         r1 = rem(it, s)
         good = same(it, p, v) and same(it, l, v) and r0 == n + post and r1 == post
-        run.check(good, 'D1', cons if not good else f'{kind}[{n},pre={pre},post={post}]',
+        run.check(good, 'D1', cons if not good else f'{kind}[{n},pre={pre},post={post}{half}]',
                   f'n={n}: preload -> {vrepr(p)[:40]}, load -> {vrepr(l)[:40]}, remaining {r0}->{r1} (expected v, v, {n + post}->{post})', where)
         run.evaluations += 1
 
@@ -460,15 +469,16 @@ def check(run):
                           f'len {n}: layout ok={okw} (segments {segs}), load ok={okr}, preload ok={okp}', wa)
     # addr_std without / with anycast
     A = prog.cls('Address')
-    for anycast in (None, (3, 5), (30, 0x2AAAAAAA)):
+    # (the workchain is any negative / any non-negative int8: a reader that tests the sign bit is followed without an inner case split)
+    for anycast, (wlo, whi) in [(a_, r_) for a_ in (None, (3, 5), (30, 0x2AAAAAAA)) for r_ in ((-128, -1), (0, 127))]:
         it = Interp(prog)
-        wc = Sym('wc', ty='int', not_none=True, key=('wc',), lo=-128, hi=127)
+        wc = Sym('wc', ty='int', not_none=True, key=('wc',), lo=wlo, hi=whi)
         hp = Sym('hash_part', ty='bytes', n=32, key=('hp',))
         addr = it.construct(A, [ListV([wc, hp], tup=True)], {})
         if anycast:
             call(it, addr, 'set_anycast', K(anycast[0]), K(anycast[1]))
         want = '10' + ('0' if not anycast else '1' + format(anycast[0], '05b') + format(anycast[1], f'0{anycast[0]}b'))
-        tag = 'plain' if not anycast else f'anycast{anycast[0]}'
+        tag = ('plain' if not anycast else f'anycast{anycast[0]}') + (',wc<0' if whi < 0 else ',wc>=0')
         b = builder(it)
         call(it, b, 'store_address', addr)
         segs = segs_of(b)
@@ -515,7 +525,7 @@ def check(run):
     # one account in several forms, stored one after the other in the same process: what is written depends on the address given, not on
     # what was stored before (an encoding kept per `Address` - whose equality ignores the anycast - would repeat the first form)
     it = Interp(prog)
-    wc = Sym('wc', ty='int', not_none=True, key=('wc',), lo=-128, hi=127)
+    wc = Sym('wc', ty='int', not_none=True, key=('wc',), lo=-128, hi=-1)
     hp = Sym('hash_part', ty='bytes', n=32, key=('hp',))
     seq_ok, seq_why = True, []
     for step, anycast in enumerate((None, (3, 5), None, (30, 0x2AAAAAAA), (3, 6))):
